@@ -3,9 +3,11 @@ CONSTANTS
   Family = "M3"
   Depth = 1
   RndN = 5
+  Mutators = TRUE
   RndK = 4
 INVARIANT TypeOK
 INVARIANT Laws
 PROPERTY NodesShrink
+PROPERTY MutatorsGrow
 CONSTRAINT Bound
 CHECK_DEADLOCK FALSE
